@@ -276,6 +276,20 @@ def mk_conic_scaled(k, j):
     return case
 
 
+def case_sphere_circle_representative(ctx):
+    """Sphere / Circle built from an integer-typed representative of the centre with weight != 1 and an integer radius describe the same
+    quadric as the ones built from the normalised float centre (free real query point)"""
+    from geometer import Sphere, Circle, Point
+    x = vec(ctx, "x", 4)
+    for rep, cart, r in (([1, 2, 3, 2], (0.5, 1.0, 1.5), 2), ([-3, 1, 0, -2], (1.5, -0.5, 0.0), 1), ([2, 4, 6, 2], (1.0, 2.0, 3.0), 3)):
+        S1, S2 = Sphere(Point(np.array(rep)), r), Sphere(Point(*cart), float(r))
+        ctx.require(f"sphere{rep}:same-locus-as-normalised-centre", ctx.iff(ctx.truth(S1.contains(Point(x))), ctx.truth(S2.contains(Point(x)))))
+    y = vec(ctx, "y", 3)
+    for rep, cart, r in (([1, 3, 2], (0.5, 1.5), 1), ([-2, 5, -4], (0.5, -1.25), 2)):
+        C1, C2 = Circle(Point(np.array(rep)), r), Circle(Point(*cart), float(r))
+        ctx.require(f"circle{rep}:same-locus-as-normalised-centre", ctx.iff(ctx.truth(C1.contains(Point(y))), ctx.truth(C2.contains(Point(y)))))
+
+
 def cases(tier, seed):
     from geometer import join, meet, crossratio, dist, is_collinear, is_perpendicular
     Q, T = ("quick", "thorough"), ("thorough",)
@@ -289,6 +303,7 @@ def cases(tier, seed):
     add("eq_Transformation3", case_eq("Transformation", 3), tiers=T, max_paths=20000)
     add("eq_Quadric3", case_eq("Quadric", 3), tiers=T, max_paths=20000)
     add("rotation_axis_representative", case_rotation_axis, tiers=Q, max_paths=2000)
+    add("sphere_circle_int_representative", case_sphere_circle_representative, tiers=Q, max_paths=2000)
     for k in range(len(SC_CONICS)):
         for j in range(len(SC_LINES)):
             add(f"conic{k}_scaled_x_line{j}", mk_conic_scaled(k, j), tiers=Q, max_paths=2000)
